@@ -20,3 +20,25 @@ for nb in (1, 2):
                  f"(symbolic); {txt}; sub-access faults injected",
            unwind=5, cex_unwind=5, timeout=900, tier="quick" if quick else "thorough",
            defines=[f"H4V_NBC={nb}", "H4V_MAXPOS=8", "H4V_MAXLEN=3", f"H4V_CASE={case}"], **HB)
+
+# HLconvert: ownership of the caller's access record (C13), write-access gate (C14), result of the promotion (C01/C02)
+CAD = dict(flags=["--sat-solver", "cadical"], backend="cbmc SAT (cadical)")
+for case, txt, tier in [(1, "valid arguments, writable file, no fault: the conversion has to succeed", "quick"),
+                        (2, "file opened read-only", "quick"),
+                        (0, "all arguments, read-only or writable file, faults injected at every H-layer call", "quick")]:
+    ob(f"HLconvert_c{case}", ["C13", "C14", "C01", "C02"], entry="h_HLconvert", enforce="HLconvert", mode="bounded",
+       bound=f"number_blocks == 2 (HLInewlink fill loop unwound); block_length, element offset/length, position symbolic; {txt}",
+       unwind=5, cex_unwind=5, tier=tier, defines=["H4V_NBC=2", f"H4V_CASE={case}"], **CAD, **HB)
+
+# HLgetdatainfo: raw block locations (C02)
+for case, txt in [(1, "arrays hold every data block (or no arrays); no fault"), (2, "arrays smaller than the element; no fault"),
+                  (3, "arrays hold every data block (or no arrays); sub-access faults injected")]:
+    ob(f"HLgetdatainfo_c{case}", ["C02"] + (["C16"] if case == 3 else []), entry="h_HLgetdatainfo", enforce="HLgetdatainfo", mode="bounded",
+       bound=f"<= 2 block tables of number_blocks == 2 (<= 4 data blocks), info_count <= 9; {txt}",
+       unwind=6, cex_unwind=6, timeout=900, defines=["H4V_NBC=2", f"H4V_CASE={case}"], **HB)
+
+# HLInewlink: table in memory == table on disk
+ob("HLInewlink", ["C01", "C02"], entry="h_HLInewlink", enforce="HLInewlink", mode="bounded", bound="1 <= number_blocks <= 4",
+   unwind=6, cex_unwind=6, defines=["H4V_NB=4"], **CAD, **HB)
+ob("HLInewlink_nb0", ["C01", "C02"], entry="h_HLInewlink_nb0", enforce=None, mode="bounded",
+   bound="number_blocks == 0 (accepted by HLcreate/HLconvert); memory safety only", unwind=6, cex_unwind=6, **HB)
